@@ -77,7 +77,7 @@ type c20Item struct {
 	From  int    `json:"from_load,omitempty"` // 1 + id of the load whose text this item was written for, when it is not the load that runs it
 }
 
-var c20Faults = []string{"none", "stray", "noncallable", "displaced", "truncate", "damage-paren", "damage-quote", "unreadable", "read-error"}
+var c20Faults = []string{"none", "stray", "noncallable", "displaced", "truncate", "damage-paren", "damage-quote", "unreadable", "read-error", "torn-token"}
 
 type c20Load struct {
 	ID      int       `json:"id"`   // generation index: appears in stamps and notes
@@ -447,6 +447,16 @@ func c20Damage(ld *c20Load) (pieces []c20Item, damaged int, complete []c20Item, 
 		sp := spots[(ld.Pos/len(cands))%len(spots)]
 		its := append(append(append([]c20Item(nil), rest[:sp+1]...), c), rest[sp+1:]...)
 		return its, -1, its, true, true
+	case "torn-token":
+		// a torn write that ends the text inside a token which starts at a clause boundary: the clauses before it are all
+		// complete, the text is not
+		cutAt := ld.Pos % (len(items) + 1)
+		for cutAt > 0 && cutAt < len(items) && items[cutAt-1].Kind == "clause" && items[cutAt].Kind == "clause" && items[cutAt-1].Pred == items[cutAt].Pred {
+			cutAt--
+		}
+		tok := []string{"'abc", "\"abc", "0'", "'a\\", "p1('x"}[(ld.Pos/(len(items)+1))%5]
+		its := append(append([]c20Item(nil), items[:cutAt]...), c20Item{Kind: "partial", Text: tok})
+		return its, cutAt, items[:cutAt], true, countClauses(items[:cutAt]) > 0
 	case "truncate", "damage-paren", "damage-quote":
 		var cl []int
 		for i, it := range items {
@@ -591,7 +601,7 @@ func (c20) Exec(r *kit.Run) {
 				if i > 0 && i < len(pieces) && pieces[i-1].Kind == "clause" && pieces[i].Kind == "clause" && pieces[i-1].Pred == pieces[i].Pred {
 					continue
 				}
-				if damaged >= 0 && (ld.Fault == "truncate" || ld.Fault == "damage-quote") && i > damaged {
+				if damaged >= 0 && (ld.Fault == "truncate" || ld.Fault == "damage-quote" || ld.Fault == "torn-token") && i > damaged {
 					continue
 				}
 				cuts = append(cuts, i)
